@@ -67,6 +67,12 @@ int xp_visit(const uint64_t key[2], int depth)
 	xp_progress++;
 	size_t mask = XS->tabsize - 1;
 	size_t i = (size_t)key[0] & mask;
+	/* nearly full: stop expanding new states (the run is reported as not exhaustive) instead of crawling or failing */
+	if ((size_t)XS->states > XS->tabsize - XS->tabsize / 8) {
+		if (__atomic_fetch_add(&XS->counters[29], 1, __ATOMIC_RELAXED) == 0) dprintf(2, "explorer: visited table (%zu entries) nearly full, no further states are expanded\n", (size_t)XS->tabsize);
+		ADD(incomplete, 1);
+		return 0;
+	}
 	for (size_t probe = 0; probe < XS->tabsize; probe++, i = (i + 1) & mask) {
 		xp_entry *e = &TAB[i];
 		uint64_t k1 = __atomic_load_n(&e->k1, __ATOMIC_ACQUIRE);
